@@ -430,6 +430,13 @@ func genMaps(b *builder, o WorldOpts) {
 			// another location)
 			addSubnet(b, "ec", w.Locs[1], "198.51.0.0/16")
 		}
+		// default subnets in the client-subnet map: a match of length 0 is a match (scope 0, that location)
+		if rng.Intn(3) == 0 {
+			addSubnet(b, "ec", w.Locs[0], "::/0")
+		}
+		if rng.Intn(4) == 0 {
+			addSubnet(b, "ec", w.Locs[len(w.Locs)-1], "0.0.0.0/0")
+		}
 		for _, bind := range pick(rng, []string{"*.example.com", "example.com", "*.", "*.org", "*.www.example.com", "a.example.com"}, 1+rng.Intn(3)) {
 			w.Maps.ECS[bind] = "ec"
 			b.add(fmt.Sprintf("8%s,%s", randCase(rng, bind), OctalAll("ec")))
